@@ -251,6 +251,8 @@ class WorkQueue:
         self._channel: Queue[Any] = Queue()
         self._stopped = False
         self._pump_tasks: set[Task[None]] = set()
+        # cancelled tasks of failed groups that may not have unwound yet
+        self._abandoned: list[Awaitable[Any]] = []
 
         new_groups, new_streams = self._maybe_integrate_work(initial_work)
         non_empty_initial_root_groups = self._prune_empty_groups(new_groups)
@@ -297,7 +299,7 @@ class WorkQueue:
         """Cancel all pending work, awaiting any asynchronous cleanup."""
         self._stopped = True
         self._channel.put_nowait(_STOP)  # wake up a parked event consumer
-        cancel_awaitables: list[Awaitable[Any]] = []
+        cancel_awaitables: list[Awaitable[Any]] = list(self._abandoned)
         for group in list(self._root_groups):
             self._cancel_group(group, reason, cancel_awaitables)
         for stream in list(self._root_streams):
@@ -658,6 +660,11 @@ class WorkQueue:
         del group_nodes[group]
         for task in list(group_node.tasks):
             if all(task_group not in group_nodes for task_group in task.groups):
+                # nobody will deliver the result of this task any more, so it must
+                # not keep running unnoticed; cancel() waits until it has unwound
+                cancel_awaitables: list[Awaitable[Any]] = []
+                self._cancel_task(task, None, cancel_awaitables)
+                self._abandoned.extend(map(ensure_future, cancel_awaitables))
                 self._remove_task(task)
         for child_group in group_node.child_groups:
             child_group_node = group_nodes.get(child_group)
